@@ -435,7 +435,7 @@ func updRes(res *Res, r *mongo.UpdateResult) {
 	res.Matched = r.MatchedCount
 	res.Modified = r.ModifiedCount
 	res.Upserted = r.UpsertedCount
-	if r.UpsertedID != nil {
+	if r.UpsertedCount > 0 {
 		res.IDs = []interface{}{r.UpsertedID}
 	}
 }
